@@ -1,13 +1,16 @@
 #!/bin/bash
 # usage: run_seeded.sh <seeded id> [check ids...]   (default: the property of the seed)
-# Applies the seeded change to /repo, runs the checks (quick tier), undoes it.
+# Applies the seeded change to the repository, runs the checks (quick tier), undoes it.
+# VERIF_REPO (default /repo) and the directory of this script's parent (default /verif) are used, so that a
+# regression over all seeds can run on scratch copies: VERIF_REPO=/dev/shm/x/repo /dev/shm/x/verif/tools/run_seeded.sh <id>
 ID=$1; shift
 PROPS="$@"; [ -z "$PROPS" ] && PROPS=${ID%%-*}
-cd /repo && git diff --quiet || { echo "/repo not clean"; exit 2; }
-git -C /repo apply /verif/seeded/$ID/patch.diff || { echo "patch does not apply"; exit 3; }
+REPO=${VERIF_REPO:-/repo}
+VERIF=$(cd "$(dirname "$0")/.." && pwd)
+cd $REPO && git diff --quiet || { echo "$REPO not clean"; exit 2; }
+git -C $REPO apply $VERIF/seeded/$ID/patch.diff || { echo "$ID patch does not apply"; exit 3; }
 for p in $PROPS; do
-  out=$(cd /verif && timeout 1500 ./check $p --tier quick 2>&1 | grep -E "^(VIOLATION|KNOWN-FINDING)" | head -3)
-  rc=$?
+  out=$(cd $VERIF && VERIF_REPO=$REPO timeout 1500 ./check $p --tier quick 2>&1 | grep -E "^(VIOLATION|KNOWN-FINDING)" | head -3)
   if echo "$out" | grep -q VIOLATION; then echo "$ID $p DETECTED: $(echo "$out" | grep VIOLATION | head -1)"; else echo "$ID $p MISSED"; fi
 done
-git -C /repo checkout -- .
+git -C $REPO checkout -- .
